@@ -213,6 +213,9 @@ def run(ctx):
         # (quick: the calls that create relationships / parts; thorough: the whole core alphabet)
         seqt = gen(ctx, "gen_seqtmpl.cfg", "SpecGen", "Emit", 2, RELOPS if q else CORE, 3 if q else 2, 3 if q else 4, "seqtmpl")
         execute(ctx, seqt, "seqtmpl", "seq", origin="tmpl")
+        # ... and on documents that were all converted from Markdown by ONE shared converter, each with its own options
+        seqm = gen(ctx, "gen_seqmd.cfg", "SpecGen", "Emit", 2 if q else 3, RELOPS, 1, 2 if q else 3, "seqmd")
+        execute(ctx, seqm, "seqmd", "seq", origin="md")
         if not q:
             full2 = gen(ctx, "gen_full2.cfg", "SpecGen", "Emit", 2, FULL, 1, 2, "full2")
             execute(ctx, full2, "full2", "seq")
